@@ -237,6 +237,11 @@ func runInventory(c *Ctx, idPrefix string, roots []*ssa.Function, reasoned map[s
 			if P.WithinOnly(s.Fn, func(f *ssa.Function) bool { return FuncKey(f) == e.fn }, 3) {
 				return e.key
 			}
+			// a reason about what a package is handed (the config pointer the registry passes to the decoding closure)
+			// holds wherever in that package the same expression is evaluated
+			if s.Kind == "niltype" && pkgOfFuncKey(e.fn) == pkgOfFuncKey(FuncKey(s.Fn)) {
+				return e.key
+			}
 		}
 		return ""
 	}
@@ -973,4 +978,16 @@ func normSiteExpr(kind, expr string) string {
 		return callee + "|" + m[1]
 	}
 	return expr
+}
+
+// pkgOfFuncKey: the package part of a function key ("(*pkg/path.T).m", "pkg/path.f$1").
+func pkgOfFuncKey(k string) string {
+	k = strings.TrimPrefix(strings.TrimPrefix(k, "("), "*")
+	if i := strings.Index(k, ")"); i >= 0 {
+		k = k[:i]
+	}
+	if i := strings.LastIndex(k, "."); i >= 0 {
+		return k[:i]
+	}
+	return k
 }
